@@ -152,6 +152,12 @@ func isLenOf(v, s ssa.Value) bool {
 
 // splitAdd: v = base + c (c constant, possibly 0).
 func splitAddConst(v ssa.Value) (ssa.Value, int64) {
+	if bo, ok := v.(*ssa.BinOp); ok && bo.Op == token.SUB {
+		if c, okc := constInt(bo.Y); okc {
+			b, c2 := splitAddConst(bo.X)
+			return b, c2 - c
+		}
+	}
 	if bo, ok := v.(*ssa.BinOp); ok && bo.Op == token.ADD {
 		if c, okc := constInt(bo.Y); okc {
 			b, c2 := splitAddConst(bo.X)
